@@ -10,7 +10,7 @@ from ..common.bamsim import write_bam
 
 ID = 'C08'
 LEVEL = 'exploration'
-NONTRIVIAL_FLOOR = 0.3
+NONTRIVIAL_FLOOR = 0.2
 RULE = ('Hypothesis-generated simulated libraries (several contigs, molecules with PCR copies whose fragments straddle bin '
         'boundaries, sites on and next to multiples of the segment size, unmapped / half-mapped / orphan reads). Part '
         'contig: --multiprocess (1..8 workers; deterministic pool with a drawn completion order or the real pool) vs one '
@@ -41,6 +41,9 @@ def strategy(kind):
             spec['contigs'] = [[c[0], L] for c in spec['contigs']]
             for m in spec['mols']:
                 m['site'] = min(max(70, m['site']), L - 150)
+                if m['rev'] and draw(st.integers(0, 5)) == 0:
+                    # reverse strand molecules lie left of their cut: the cut may be one of the last bases of the contig
+                    m['site'] = L - draw(st.integers(1, 6)) - (3 if spec['method'] == 'nla' else 0)
             for e in spec['extras']:
                 e['pos'] = min(e['pos'], L - 70)
             run = {'method': spec['method'], 'seg': seg, 'frag': draw(st.sampled_from([160, 200, 400, seg, 2 * seg])),
@@ -48,7 +51,7 @@ def strategy(kind):
                    'pool': draw(st.sampled_from(['det', 'det', 'det', 'real'])),
                    'order': draw(st.lists(st.integers(0, 1000), min_size=4, max_size=4))}
         else:
-            spec = draw(libsim.spec_strategy(max_contigs=6, max_mols=14, extras=draw(st.booleans()), max_cells=3))
+            spec = draw(libsim.spec_strategy(max_contigs=6, min_contigs=draw(st.sampled_from([1, 2, 2, 3])), max_mols=16, extras=draw(st.booleans()), max_cells=3))
             run = {'method': spec['method'], 'threads': draw(st.integers(1, 8)), 'pool': draw(st.sampled_from(['det', 'det', 'real'])),
                    'order': draw(st.lists(st.integers(0, 1000), min_size=4, max_size=4))}
         run['hamming'] = draw(st.sampled_from([0, 1, 1]))
